@@ -424,6 +424,37 @@ V('c15-add-contig-shift-first', 'C15', ST + 'assembler.rs',
         }
 """, 'R15.1')
 
+IM = 'src/iface/interface/mod.rs'
+V('c12-start-while-busy', 'C12', IM,
+  """                        if !frag.is_empty() && !frag.finished() {
+                            // Never overwrite the fragments of a packet that is still being sent.
+                            net_debug!("Fragmentation buffer is in use. Dropping");
+                            return Ok(());
+                        }
+""",
+  """""", 'R12.1')
+V('c12-egress-while-busy', 'C12', IM,
+  """            #[cfg(feature = "_proto-fragmentation")]
+            if !self.fragmenter.is_empty() && !self.fragmenter.finished() {
+                break;
+            }
+
+            if !item""",
+  """            if !item""", 'R12.1')
+V('c12-frag-size-unaligned', 'C12', 'src/phy/mod.rs',
+  """        payload_mtu - (payload_mtu % IPV4_FRAGMENT_PAYLOAD_ALIGNMENT)""",
+  """        payload_mtu""", 'R12.2')
+V('c12-key-no-protocol', 'C12', 'src/wire/ipv4.rs',
+  """            protocol: self.next_header(),
+        }
+    }""",
+  """            protocol: Protocol::Unknown(0),
+        }
+    }""", 'R12.3')
+V('c12-complete-without-total', 'C12', 'src/iface/fragmentation.rs',
+  """        self.total_size == Some(self.assembler.peek_front())""",
+  """        self.total_size.is_some() && self.assembler.peek_front() > 0""", 'R12.4')
+
 S('silent-tcp-rename-local', ['C17'], T,
   """        let mut ack_of_fin = false;""",
   """        let mut ack_of_fin = false; let _unused_marker = 0u8;""", 'adds an unused local')
